@@ -174,8 +174,8 @@ func checkC02(c *Ctx) *report.Result {
 		return strings.Contains(f.Construct, "state cpu.") || strings.Contains(f.Construct, "(*cpu.")
 	})
 	_ = it
-	r.Rule("L-halt", "HALT decision table of C05 (H-halt) re-stated: HALT occupies one machine cycle and idles only in the documented cases")
-	adopt(r, c.sibling("C05"), map[string]string{"H-halt": "L-halt"}, "a HALT that enters the idle state in the halt-bug case occupies an extra machine cycle")
+	r.Rule("L-halt", "HALT decision table and ownership of the halted flag (H-halt, H-own of C05) re-stated: HALT occupies one machine cycle, idles only in the documented cases, and no other instruction puts the CPU to sleep")
+	adopt(r, c.sibling("C05"), map[string]string{"H-halt": "L-halt", "H-own": "L-halt"}, "a HALT that enters the idle state in the halt-bug case occupies an extra machine cycle")
 	return r
 }
 
